@@ -477,7 +477,7 @@ func report(args []string) {
 	}
 
 	reasons := map[string]int{}
-	var nPass, nFail, nUnm, nMissing int
+	var nPass, nFail, nUnm, nMissing, nRan int
 	for _, e := range entries {
 		label := e.win
 		if e.bodies != "" {
@@ -493,7 +493,12 @@ func report(args []string) {
 			fmt.Printf("FAIL        %s :: test did not run or did not finish (crash?)\n", label)
 		case st == "PASS":
 			nPass++
-			fmt.Printf("PASS        %s\n", label)
+			if strings.Contains(joined, "CALIB-GOT ") {
+				nRan++
+				fmt.Printf("PASS        %s\n", label)
+			} else {
+				fmt.Printf("PASS        %s (expectation is a transpile-time error: no script was run)\n", label)
+			}
 		case st == "SKIP":
 			reason := "skipped for an unknown reason"
 			if i := strings.Index(joined, "UNMODELLED: "); i >= 0 {
@@ -507,7 +512,7 @@ func report(args []string) {
 			fmt.Printf("FAIL        %s :: %s\n", label, failSummary(logs[e.calib]))
 		}
 	}
-	fmt.Printf("calib summary: %d tests, %d PASS, %d FAIL, %d UNMODELLED\n", len(entries), nPass, nFail+nMissing, nUnm)
+	fmt.Printf("calib summary: %d tests, %d PASS (%d of them executed a script under the model), %d FAIL, %d UNMODELLED\n", len(entries), nPass, nRan, nFail+nMissing, nUnm)
 	if len(reasons) > 0 {
 		var rs []string
 		for r := range reasons {
